@@ -24,6 +24,7 @@ type Contract struct {
 	Modifies   []string
 	Lemma      bool
 	Unroll     map[string]int
+	Thorough   bool
 	Pos        string
 }
 
@@ -56,6 +57,8 @@ type SpecDB struct {
 	lockCache  map[*ssa.Function]bool
 	tables     map[string]bool
 	effectFree map[string]bool
+	noblock    []*Sweep
+	curProps   []string
 }
 
 func expandName(s string) string {
@@ -253,6 +256,10 @@ func (db *SpecDB) readFile(prog *ssa.Program, p *packages.Package, spkg *ssa.Pac
 				if con != nil {
 					con.Trusted = true
 				}
+			case "thorough":
+				if con != nil {
+					con.Thorough = true
+				}
 			case "unroll":
 				// unroll <target> <ordinal> <K>: only while verifying this unit
 				if con != nil && len(dir) >= 4 {
@@ -381,6 +388,31 @@ func (db *SpecDB) readFile(prog *ssa.Program, p *packages.Package, spkg *ssa.Pac
 			case "effectfree-iface":
 				for _, n := range dir[1:] {
 					db.effectFree[expandName(n)] = true
+				}
+			case "noblock":
+				for _, n := range dir[1:] {
+					tn := expandName(n)
+					if strings.HasPrefix(n, "props=") {
+						continue
+					}
+					if allFns[tn] == nil {
+						db.errf("noblock: target %q not found", tn)
+						continue
+					}
+					if strings.HasPrefix(n, "props=") {
+						continue
+					}
+					sw := &Sweep{Target: allFns[tn], Name: tn}
+					for _, a := range dir[1:] {
+						if strings.HasPrefix(a, "props=") {
+							sw.Props = strings.Split(strings.TrimPrefix(a, "props="), ",")
+						}
+					}
+					db.noblock = append(db.noblock, sw)
+				}
+			case "pure-fn":
+				for _, n := range dir[1:] {
+					db.pure[expandName(n)] = true
 				}
 			case "inline-ext":
 				db.inlineExts = append(db.inlineExts, dir[1:]...)
